@@ -175,6 +175,24 @@ example : ∃ (w lp : Fin 3 → ℝ) (m : Fin 3 → Bool) (tiny : ℝ), 0 < tiny
     · simp; norm_num
 
 
+/-! ### where a NaN can come from (special-values model `SV`: exact reals + `±∞` + `NaN`, IEEE rules, no rounding) -/
+
+/-- **no NaN is created**: with finite non-negative weights, `tiny > 0` and log-pdfs that are finite or `-∞` with
+at least one finite entry, `log_pdf_to_affiliation` — the same generic definition, run on special values — returns a
+finite real in `[0, 1]` for every class, with or without a source-activity mask (in particular also when the
+denominator is floored).  Partial: rounding and the overflow threshold of `Float` are not modelled. -/
+theorem affiliation_finite_special_values {t : ℝ} (ht : 0 < t) (wr : Fin (K+1) → ℝ) (hw : ∀ k, 0 ≤ wr k)
+    (lp : Fin (K+1) → SV) (hlp : ∀ k, lp k = SV.ninf ∨ ∃ r, lp k = SV.fin r) (hfin : ∃ k r, lp k = SV.fin r)
+    (mask : Option (Fin (K+1) → Bool)) (k : Fin (K+1)) :
+    ∃ r : ℝ, Posterior.affiliation (SV.fin t) none (fun k => SV.fin (wr k)) lp mask k = SV.fin r ∧ 0 ≤ r ∧ r ≤ 1 :=
+  SV.affiliation_finite ht wr hw lp hlp hfin mask k
+
+/-- the hypothesis is forced: if the log-pdf of EVERY class is `-∞` the routine evaluates `-∞ - (-∞)` and the whole
+column is NaN (real-code counterpart: known finding `all-component-log-pdfs-minus-inf-nan-posterior`) -/
+theorem affiliation_nan_of_all_minus_inf (tiny : SV) (w lp : Fin (K+1) → SV) (hall : ∀ k, lp k = SV.ninf)
+    (k : Fin (K+1)) : Posterior.affiliation tiny none w lp none k = SV.nan :=
+  SV.affiliation_nan_of_all_ninf tiny w lp hall k
+
 /-! ### `predict` = Bayes' rule on the model's own fields, under every tying option -/
 
 /-- `predict` of the generic mixture (`Mix.eStep`, clipping off): the posterior of class `k` at `(f, t)` is Bayes'
@@ -200,6 +218,24 @@ theorem predict_sum_one {P : Type} {F T : Nat} (c : MixCfg ℝ P F (K+1) T) (θ 
   unfold Mix.eStep
   simp only [hc]
   exact affiliation_sum_one (w := fun k' => θ.weight f k' t) (lp := fun k' => c.logPdf (θ.comp k') f t) _ ht hden
+
+/-- integration models (GCACGMM, VMFCACGMM): the density entering Bayes' rule is the product of the
+exponent-weighted stream densities, `p_spatial ^ spatial_weight · p_spectral ^ spectral_weight` -/
+theorem integration_density (sw spw a b : ℝ) :
+    Real.exp (integrationLogPdf sw spw a b) = Real.exp a ^ sw * Real.exp b ^ spw := by
+  unfold integrationLogPdf
+  rw [Real.exp_add, mul_comm sw a, mul_comm spw b, Real.exp_mul, Real.exp_mul]
+
+/-- `_unit_norm` with `eps_style` `'plus'` / `'max'` and `eps > 0` never divides by zero; with `'where'` the
+denominator is `eps` exactly for zero frames -/
+theorem unitNormDen_pos {eps n : ℝ} (heps : 0 < eps) (hn : 0 ≤ n) (style : EpsStyle) :
+    0 < unitNormDen style eps n := by
+  cases style
+  · exact add_pos_of_nonneg_of_pos hn heps
+  · exact lt_of_lt_of_le heps (le_max_right _ _)
+  · rcases hn.lt_or_eq with h | h
+    · rw [whereDen_of_pos h]; exact h
+    · rw [← h, whereDen_of_zero]; exact heps
 
 /-- `unsqueeze(weight, weight_constant_axis)` for the four documented options of the integration models:
 stored shapes `(F, K)`, `(K, T)`, `(K,)`, `()` become `(F, K, 1)`, `(1, K, T)`, `(1, K, 1)`, `(1, 1, 1)`; an axis
